@@ -67,10 +67,92 @@ class Ctx:
             self._st_world = LockWorld(Program([self.selftest]))
         return self._st_world
 
+    def nostats(self):
+        """thorough tier: a context whose core is cachelito-core built with --no-default-features (no fixtures)"""
+        import glob
+        from .facts import load_crate
+        fs = sorted(glob.glob(os.path.join(self.base, 'u1n', 'cachelito_core-*.json')))
+        if not fs:
+            return None
+        c2 = Ctx.__new__(Ctx)
+        c2.tier = self.tier
+        c2.base, c2.meta = self.base, self.meta
+        c2._crates = {'cachelito_core': load_crate(fs[0])}
+        c2._prog = Program([c2._crates['cachelito_core']])
+        c2._world = None
+        c2._st_world = None
+        c2.expect = {}
+        c2.witness = None
+        return c2
+
+    # ---- thorough tier: the repository's own decorated functions (tests, examples) ----------------
+    def u5_crates(self):
+        import glob
+        from .facts import load_crate
+        if not hasattr(self, '_u5'):
+            out = []
+            d = os.path.join(self.base, 'u5')
+            for f in sorted(glob.glob(os.path.join(d, '*.json'))):
+                bn = os.path.basename(f)
+                if bn.startswith('cachelito_core-'):
+                    continue  # the core is taken from the main unit (same ids)
+                out.append(load_crate(f))
+            self._u5 = out
+        return self._u5
+
+    def u5_generated(self):
+        """ids of generated bodies in U5: a body that builds a cache on statics it owns, and everything nested in it"""
+        if hasattr(self, '_u5gen'):
+            return self._u5gen
+        from .facts import callee_name
+        gen = set()
+        roots = []
+        for c in self.u5_crates():
+            for b in c.bodies.values():
+                for blk, t in b.calls():
+                    cn = callee_name(t)
+                    if cn in (N.GLOBAL + '::new', N.THREAD + '::new', N.ASYNC + '::new'):
+                        # statics passed must belong to this body
+                        owns = False
+                        for sid, st in c.statics.items():
+                            if st.get('parent_fn') == b.id:
+                                owns = True
+                                break
+                        if owns:
+                            roots.append((c, b))
+                        break
+        for c, b in roots:
+            gen.add(b.id)
+            for d in c.descendants(b):
+                gen.add(d.id)
+            # an async fn's coroutine is the root; include the enclosing fn too
+            if b.kind == 'coroutine' and b.parent:
+                gen.add(b.parent)
+        self._u5gen = gen
+        self._u5roots = roots
+        return gen
+
+    @property
+    def u5_prog(self):
+        if not hasattr(self, '_u5prog'):
+            self._u5prog = Program([self.core] + self.u5_crates())
+        return self._u5prog
+
+    @property
+    def u5_world(self):
+        from .locks import LockWorld
+        if not hasattr(self, '_u5world'):
+            gen = self.u5_generated()
+            core = self.core
+            self._u5world = LockWorld(self.u5_prog, include=lambda b: b.crate is core or b.id in gen)
+        return self._u5world
+
     def role(self, body):
         """None for hand-written code; for generated code (fixture crates) a stable role name:
         '<macro>:wrapper' | ':clear-callback' | ':check-callback' | ':body' | ':registration' | ':closure'"""
         if body.crate.name not in ('fx_sync', 'fx_async'):
+            if body.crate is not self.core and hasattr(self, '_u5gen') and body.id in self._u5gen:
+                return 'repo-own:generated'
             return None
         mac = 'cache' if body.crate.name == 'fx_sync' else 'cache_async'
         prog = self.prog
